@@ -46,6 +46,17 @@ func (c c13cfg) dest(sev slog.Level) []int {
 
 const diagText = "slog print log failed"
 
+type rejectedErr []string
+
+func (e rejectedErr) Error() string { return "rejected: " + strings.Join(e, ",") }
+
+type detailErr struct {
+	why  string
+	tags map[string]string
+}
+
+func (e detailErr) Error() string { return e.why }
+
 // nestingValue logs a record through another logger while it is being formatted.
 type nestingValue struct {
 	lg *slog.Entry
@@ -112,11 +123,15 @@ func c13enum(c *Ctx) {
 		// the error values a real destination returns: closed files and pipes, full disks, short writes, wrapped ones
 		w.Core().Err = func(int) error {
 			kinds := []error{mon.ErrInjected, os.ErrClosed, io.ErrClosedPipe, io.ErrShortWrite, syscall.ENOSPC, syscall.EPIPE,
-				fmt.Errorf("write /var/log/app.log: %w", os.ErrClosed), &os.PathError{Op: "write", Path: "/dev/stdout", Err: syscall.EBADF}, io.EOF}
+				fmt.Errorf("write /var/log/app.log: %w", os.ErrClosed), &os.PathError{Op: "write", Path: "/dev/stdout", Err: syscall.EBADF}, io.EOF,
+				// error values whose dynamic type is not comparable (a slice-typed aggregate, a struct holding a map)
+				rejectedErr{"quota", "retention"}, detailErr{why: "throttled", tags: map[string]string{"zone": "b"}}}
 			return kinds[(errKind+attempt)%len(kinds)]
 		}
 		pool = append(pool, w)
 	}
+	plog := mon.NewLog() // the parent's destination in the child-logger variant: must stay empty
+	pw := mon.New(plog, "PARENT", mon.ShapePlain)
 	nlog := mon.NewLog()
 	nestL := slog.New("nested").Root()
 	nestL.SetColorMode(false)
@@ -139,196 +154,212 @@ func c13enum(c *Ctx) {
 		cfg := c13cfgs[k%len(c13cfgs)]
 		cfgIdx := k % len(c13cfgs)
 
-		lg := slog.New("c13").Root()
-		lg.SetColorMode(false)
-		lg.SetWriter(io.Writer(pool[cfg.normal[0]]))
-		for _, w := range cfg.normal[1:] {
-			lg.AddWriter(pool[w])
-		}
-		lg.SetErrorWriter(pool[cfg.errs[0]])
-		for _, w := range cfg.errs[1:] {
-			lg.AddErrorWriter(pool[w])
-		}
-		for l, ws := range cfg.perLevel {
-			for _, w := range ws {
-				lg.AddLevelWriter(l, pool[w])
+		for _, kind := range []string{"root", "child"} {
+			lg := slog.New("c13").Root()
+			plog.Reset()
+			if kind == "child" {
+				// a sub-logger of a parent that has its own destinations and admits everything: the reaction to a failing
+				// destination of the CHILD is governed by the child's level and goes to the child's warning destinations
+				lg.SetColorMode(false)
+				lg.SetWriter(pw).SetErrorWriter(pw).SetLevel(slog.AlwaysLevel)
+				lg = lg.New("c13")
+				c.R.Add("schedules_on_a_child_logger", 1)
+			c.R.AddEvals(1) // the schedule is executed a second time
 			}
-		}
-		lg.SetLevel(L)
-		is.SetDebugMode(false)
-		attempt, sched, schedLen = 0, uint(sc), maxAttempts
-		errKind = idx / nSched // the kind of error rotates with the case
-		desc := map[string]any{"config": cfgIdx, "normal": cfg.normal, "error": cfg.errs, "per_level": fmt.Sprint(cfg.perLevel), "logger_level": L.String(), "calls": fmt.Sprint(sq), "schedule_bits": fmt.Sprintf("%0*b (bit i = attempt i fails, LSB first)", maxAttempts, sc)}
-		failedAny := false
-		judge := func(phase string, ci int, sev slog.Level, healthy bool) bool {
-			id := fmt.Sprintf("<%s%d-%d>", phase, idx, ci)
-			log.Reset()
-			panicked := ""
-			func() {
-				defer func() {
-					if e := recover(); e != nil {
-						panicked = fmt.Sprint(e)
-					}
-				}()
-				lg.LogAttrs(bg, sev, "rec "+id, "k", ci)
-			}()
-			evs := log.Events()
-			sig := func(clause string) string { return "C13/" + clause + "/" + phase + "/" + className(sev) }
-			if panicked != "" {
-				c.R.Violation(idx, "returns-normally", sig("returns-normally"), "the logging call panicked: "+panicked, desc)
-				return false
+			lg.SetColorMode(false)
+			lg.SetWriter(io.Writer(pool[cfg.normal[0]]))
+			for _, w := range cfg.normal[1:] {
+				lg.AddWriter(pool[w])
 			}
-			adm := admit(L, sev, false, treat)
-			sel := cfg.dest(sev)
-			warnDst := cfg.dest(slog.WarnLevel)
-			own := map[int]int{}
-			diag := map[int]int{}
-			ownFailed := false
-			nAtt := 0
-			for _, e := range evs {
-				if e.Kind != mon.EvWrite {
-					continue
+			lg.SetErrorWriter(pool[cfg.errs[0]])
+			for _, w := range cfg.errs[1:] {
+				lg.AddErrorWriter(pool[w])
+			}
+			for l, ws := range cfg.perLevel {
+				for _, w := range ws {
+					lg.AddLevelWriter(l, pool[w])
 				}
-				nAtt++
-				var wi int
-				fmt.Sscanf(e.W, "W%d", &wi)
-				switch {
-				case bytes.Contains(e.Data, []byte(id)) && !bytes.Contains(e.Data, []byte(diagText)):
-					own[wi]++
-					if e.Failed {
-						ownFailed = true
+			}
+			lg.SetLevel(L)
+			is.SetDebugMode(false)
+			attempt, sched, schedLen = 0, uint(sc), maxAttempts
+			errKind = idx / nSched // the kind of error rotates with the case
+			desc := map[string]any{"logger": kind, "config": cfgIdx, "normal": cfg.normal, "error": cfg.errs, "per_level": fmt.Sprint(cfg.perLevel), "logger_level": L.String(), "calls": fmt.Sprint(sq), "schedule_bits": fmt.Sprintf("%0*b (bit i = attempt i fails, LSB first)", maxAttempts, sc)}
+			failedAny := false
+			judge := func(phase string, ci int, sev slog.Level, healthy bool) bool {
+				id := fmt.Sprintf("<%s%d-%d>", phase, idx, ci)
+				log.Reset()
+				panicked := ""
+				func() {
+					defer func() {
+						if e := recover(); e != nil {
+							panicked = fmt.Sprint(e)
+						}
+					}()
+					lg.LogAttrs(bg, sev, "rec "+id, "k", ci)
+				}()
+				evs := log.Events()
+				sig := func(clause string) string { return "C13/" + clause + "/" + phase + "/" + className(sev) }
+				if panicked != "" {
+					c.R.Violation(idx, "returns-normally", sig("returns-normally"), "the logging call panicked: "+panicked, desc)
+					return false
+				}
+				adm := admit(L, sev, false, treat)
+				sel := cfg.dest(sev)
+				warnDst := cfg.dest(slog.WarnLevel)
+				own := map[int]int{}
+				diag := map[int]int{}
+				ownFailed := false
+				nAtt := 0
+				for _, e := range evs {
+					if e.Kind != mon.EvWrite {
+						continue
 					}
-					if len(e.Data) == 0 || e.Data[len(e.Data)-1] != '\n' || !bytes.HasPrefix(e.Data, []byte("time=")) {
-						c.R.Violation(idx, "complete-record", sig("complete-record"), fmt.Sprintf("destination %s was handed an incomplete record: %s", e.W, q(clip(string(e.Data), 200))), desc)
+					nAtt++
+					var wi int
+					fmt.Sscanf(e.W, "W%d", &wi)
+					switch {
+					case bytes.Contains(e.Data, []byte(id)) && !bytes.Contains(e.Data, []byte(diagText)):
+						own[wi]++
+						if e.Failed {
+							ownFailed = true
+						}
+						if len(e.Data) == 0 || e.Data[len(e.Data)-1] != '\n' || !bytes.HasPrefix(e.Data, []byte("time=")) {
+							c.R.Violation(idx, "complete-record", sig("complete-record"), fmt.Sprintf("destination %s was handed an incomplete record: %s", e.W, q(clip(string(e.Data), 200))), desc)
+							return false
+						}
+					case bytes.Contains(e.Data, []byte(diagText)):
+						diag[wi]++
+					default:
+						c.R.Violation(idx, "foreign-write", sig("foreign-write"), fmt.Sprintf("unexpected payload at %s: %s", e.W, q(clip(string(e.Data), 200))), desc)
 						return false
 					}
-				case bytes.Contains(e.Data, []byte(diagText)):
-					diag[wi]++
-				default:
-					c.R.Violation(idx, "foreign-write", sig("foreign-write"), fmt.Sprintf("unexpected payload at %s: %s", e.W, q(clip(string(e.Data), 200))), desc)
-					return false
 				}
-			}
-			c.R.Add("write_attempts", int64(nAtt))
-			if ownFailed {
-				failedAny = true
-				c.R.Add("calls_with_a_failing_write", 1)
-			}
-			want := map[int]int{}
-			if adm {
-				for _, w := range sel {
-					want[w]++
+				c.R.Add("write_attempts", int64(nAtt))
+				if ownFailed {
+					failedAny = true
+					c.R.Add("calls_with_a_failing_write", 1)
 				}
-			}
-			for w := 0; w < 6; w++ {
-				if own[w] != want[w] {
-					c.R.Violation(idx, "other-destinations", sig("other-destinations"), fmt.Sprintf("destination W%d was handed the record %d time(s), expected %d (selected %v, admitted %v); events: %s", w, own[w], want[w], sel, adm, clip(fmtEvents(evs), 900)), desc)
-					return false
-				}
-			}
-			// diagnostics
-			wantDiagMax := map[int]int{}
-			diagAllowed := ownFailed && sev != slog.WarnLevel && admit(L, slog.WarnLevel, false, treat)
-			if diagAllowed {
-				for _, w := range warnDst {
-					wantDiagMax[w]++
-				}
-			}
-			ndiag := 0
-			for w := 0; w < 6; w++ {
-				ndiag += diag[w]
-				if diag[w] > wantDiagMax[w] {
-					why := "more than one diagnostic record / a destination that is not a warning destination"
-					switch {
-					case !ownFailed:
-						why = "no Write failed for this record"
-					case sev == slog.WarnLevel:
-						why = "the failing record was itself a warning"
-					case !admit(L, slog.WarnLevel, false, treat):
-						why = "the logger does not admit warnings"
+				want := map[int]int{}
+				if adm {
+					for _, w := range sel {
+						want[w]++
 					}
-					c.R.Violation(idx, "diagnostic", sig("diagnostic"), fmt.Sprintf("destination W%d received %d diagnostic record(s), at most %d allowed (%s; warning destinations %v); events: %s", w, diag[w], wantDiagMax[w], why, warnDst, clip(fmtEvents(evs), 900)), desc)
+				}
+				for w := 0; w < 6; w++ {
+					if own[w] != want[w] {
+						c.R.Violation(idx, "other-destinations", sig("other-destinations"), fmt.Sprintf("destination W%d was handed the record %d time(s), expected %d (selected %v, admitted %v); events: %s", w, own[w], want[w], sel, adm, clip(fmtEvents(evs), 900)), desc)
+						return false
+					}
+				}
+				// diagnostics
+				wantDiagMax := map[int]int{}
+				diagAllowed := ownFailed && sev != slog.WarnLevel && admit(L, slog.WarnLevel, false, treat)
+				if diagAllowed {
+					for _, w := range warnDst {
+						wantDiagMax[w]++
+					}
+				}
+				ndiag := 0
+				for w := 0; w < 6; w++ {
+					ndiag += diag[w]
+					if diag[w] > wantDiagMax[w] {
+						why := "more than one diagnostic record / a destination that is not a warning destination"
+						switch {
+						case !ownFailed:
+							why = "no Write failed for this record"
+						case sev == slog.WarnLevel:
+							why = "the failing record was itself a warning"
+						case !admit(L, slog.WarnLevel, false, treat):
+							why = "the logger does not admit warnings"
+						}
+						c.R.Violation(idx, "diagnostic", sig("diagnostic"), fmt.Sprintf("destination W%d received %d diagnostic record(s), at most %d allowed (%s; warning destinations %v); events: %s", w, diag[w], wantDiagMax[w], why, warnDst, clip(fmtEvents(evs), 900)), desc)
+						return false
+					}
+				}
+				if ndiag > 0 {
+					c.R.Add("diagnostic_records_seen", 1)
+				}
+				bound := len(sel) + len(warnDst)
+				if nAtt > bound {
+					c.R.Violation(idx, "bounded", sig("bounded"), fmt.Sprintf("%d write attempts for one call, bound is |selected|+|warning destinations| = %d", nAtt, bound), desc)
 					return false
 				}
+				if healthy && ndiag > 0 {
+					c.R.Violation(idx, "recovery", sig("recovery"), "diagnostic produced although every destination works again", desc)
+					return false
+				}
+				return true
 			}
-			if ndiag > 0 {
-				c.R.Add("diagnostic_records_seen", 1)
+			for ci, sev := range sq {
+				if !judge("f", ci, sev, false) {
+					return
+				}
 			}
-			bound := len(sel) + len(warnDst)
-			if nAtt > bound {
-				c.R.Violation(idx, "bounded", sig("bounded"), fmt.Sprintf("%d write attempts for one call, bound is |selected|+|warning destinations| = %d", nAtt, bound), desc)
-				return false
+			// faults stop: every class must be delivered normally (no sticky state)
+			schedLen = 0
+			for ci, sev := range c13sevs {
+				if !judge("h", ci, sev, true) {
+					return
+				}
 			}
-			if healthy && ndiag > 0 {
-				c.R.Violation(idx, "recovery", sig("recovery"), "diagnostic produced although every destination works again", desc)
-				return false
-			}
-			return true
-		}
-		for ci, sev := range sq {
-			if !judge("f", ci, sev, false) {
-				return
-			}
-		}
-		// faults stop: every class must be delivered normally (no sticky state)
-		schedLen = 0
-		for ci, sev := range c13sevs {
-			if !judge("h", ci, sev, true) {
-				return
-			}
-		}
-		// ... also when two records are being formatted at the same time: a value of the record logs through another
-		// logger while it is formatted (nothing a failure left behind may be handed out twice)
-		if L != slog.OffLevel {
-			id := fmt.Sprintf("<n%d>", idx)
-			log.Reset()
-			nlog.Reset()
-			panicked := ""
-			func() {
-				defer func() {
-					if e := recover(); e != nil {
-						panicked = fmt.Sprint(e)
-					}
+			// ... also when two records are being formatted at the same time: a value of the record logs through another
+			// logger while it is formatted (nothing a failure left behind may be handed out twice)
+			if L != slog.OffLevel {
+				id := fmt.Sprintf("<n%d>", idx)
+				log.Reset()
+				nlog.Reset()
+				panicked := ""
+				func() {
+					defer func() {
+						if e := recover(); e != nil {
+							panicked = fmt.Sprint(e)
+						}
+					}()
+					lg.LogAttrs(bg, slog.AlwaysLevel, "rec "+id, "a", 1, "nest", nestingValue{nestL, id}, "z", 2)
 				}()
-				lg.LogAttrs(bg, slog.AlwaysLevel, "rec "+id, "a", 1, "nest", nestingValue{nestL, id}, "z", 2)
-			}()
-			sig := func(clause string) string { return "C13/" + clause + "/nested/always" }
-			if panicked != "" {
-				c.R.Violation(idx, "returns-normally", sig("returns-normally"), "after the faults stopped, a record whose value logs through another logger panicked: "+panicked, desc)
-				return
-			}
-			got := map[string]int{}
-			for _, e := range log.Events() {
-				if e.Kind != mon.EvWrite {
-					continue
-				}
-				got[e.W]++
-				d := e.Data
-				if !bytes.HasPrefix(d, []byte("time=")) || bytes.Count(d, []byte{'\n'}) != 1 || d[len(d)-1] != '\n' || bytes.Count(d, []byte("rec "+id)) != 1 ||
-					!bytes.Contains(d, []byte("inner-done")) || !bytes.Contains(d, []byte(" a=1 ")) || !bytes.Contains(d, []byte(" z=2")) || bytes.Contains(d, []byte("inner "+id)) {
-					c.R.Violation(idx, "recovery", sig("recovery"), fmt.Sprintf("after the faults stopped, destination %s was handed something that is not the complete record of the call (a value of that record logs through another logger while being formatted): %s", e.W, q(clip(string(d), 300))), desc)
+				sig := func(clause string) string { return "C13/" + clause + "/nested/always" }
+				if panicked != "" {
+					c.R.Violation(idx, "returns-normally", sig("returns-normally"), "after the faults stopped, a record whose value logs through another logger panicked: "+panicked, desc)
 					return
 				}
-			}
-			for _, w := range cfg.dest(slog.AlwaysLevel) {
-				if got[fmt.Sprintf("W%d", w)] != 1 {
-					c.R.Violation(idx, "recovery", sig("recovery"), fmt.Sprintf("after the faults stopped, destination W%d received the record %d time(s) (a value of that record logs through another logger while being formatted)", w, got[fmt.Sprintf("W%d", w)]), desc)
+				got := map[string]int{}
+				for _, e := range log.Events() {
+					if e.Kind != mon.EvWrite {
+						continue
+					}
+					got[e.W]++
+					d := e.Data
+					if !bytes.HasPrefix(d, []byte("time=")) || bytes.Count(d, []byte{'\n'}) != 1 || d[len(d)-1] != '\n' || bytes.Count(d, []byte("rec "+id)) != 1 ||
+						!bytes.Contains(d, []byte("inner-done")) || !bytes.Contains(d, []byte(" a=1 ")) || !bytes.Contains(d, []byte(" z=2")) || bytes.Contains(d, []byte("inner "+id)) {
+						c.R.Violation(idx, "recovery", sig("recovery"), fmt.Sprintf("after the faults stopped, destination %s was handed something that is not the complete record of the call (a value of that record logs through another logger while being formatted): %s", e.W, q(clip(string(d), 300))), desc)
+						return
+					}
+				}
+				for _, w := range cfg.dest(slog.AlwaysLevel) {
+					if got[fmt.Sprintf("W%d", w)] != 1 {
+						c.R.Violation(idx, "recovery", sig("recovery"), fmt.Sprintf("after the faults stopped, destination W%d received the record %d time(s) (a value of that record logs through another logger while being formatted)", w, got[fmt.Sprintf("W%d", w)]), desc)
+						return
+					}
+				}
+				nev := nlog.Events()
+				if len(nev) != 1 || !bytes.HasPrefix(nev[0].Data, []byte("time=")) || bytes.Count(nev[0].Data, []byte("inner "+id)) != 1 || nev[0].Data[len(nev[0].Data)-1] != '\n' || bytes.Contains(nev[0].Data, []byte("rec "+id)) {
+					c.R.Violation(idx, "recovery", sig("recovery"), fmt.Sprintf("after the faults stopped, the record logged from inside a value's String() was not delivered once and whole: %s", clip(fmtEvents(nev), 400)), desc)
 					return
 				}
+				c.R.Add("nested_records_after_recovery", 1)
 			}
-			nev := nlog.Events()
-			if len(nev) != 1 || !bytes.HasPrefix(nev[0].Data, []byte("time=")) || bytes.Count(nev[0].Data, []byte("inner "+id)) != 1 || nev[0].Data[len(nev[0].Data)-1] != '\n' || bytes.Contains(nev[0].Data, []byte("rec "+id)) {
-				c.R.Violation(idx, "recovery", sig("recovery"), fmt.Sprintf("after the faults stopped, the record logged from inside a value's String() was not delivered once and whole: %s", clip(fmtEvents(nev), 400)), desc)
+			if n := plog.Len(); n > 0 {
+				c.R.Violation(idx, "diagnostic", "C13/diagnostic/another-loggers-destination", fmt.Sprintf("the parent's destination received %d record(s) although only its child logged: %s", n, clip(fmtEvents(plog.Events()), 600)), desc)
 				return
 			}
-			c.R.Add("nested_records_after_recovery", 1)
-		}
-		c.R.Add("schedules", 1)
-		if failedAny {
-			c.R.NonTrivial(idx)
-			if c.R.WantSample() && strings.Count(fmt.Sprintf("%b", sc), "1") >= 2 {
-				c.R.Sample(idx, desc, "every call returned, every other destination got the record once, at most one diagnostic per warning destination, healthy round delivered normally")
+			c.R.Add("schedules", 1)
+			if failedAny {
+				c.R.NonTrivial(idx, kind)
+				if c.R.WantSample() && strings.Count(fmt.Sprintf("%b", sc), "1") >= 2 {
+					c.R.Sample(idx, desc, "every call returned, every other destination got the record once, at most one diagnostic per warning destination, healthy round delivered normally")
+				}
 			}
-		}
+		} // kind
 	})
 }
